@@ -54,6 +54,10 @@ type Scenario struct {
 	// RowsPer is the number of rows every append adds to the input columns (default 2); large values make the
 	// zero-copy column chunks big enough to be chained by reference
 	RowsPer int `json:"rowsPer,omitempty"`
+	// BreakBytes is how many bytes of the packet the connection takes when it breaks under a blocked write (letter B)
+	BreakBytes int `json:"breakBytes,omitempty"`
+	// DrainBreak: when nothing else can move and the sender sits in a blocked write, the connection breaks (letter B)
+	DrainBreak bool `json:"drainBreak,omitempty"`
 
 	Sweep  string `json:"sweep,omitempty"`
 	Stride int    `json:"stride,omitempty"`
@@ -148,6 +152,7 @@ type runner struct {
 	free   bool // free-running: no gates, no hooks
 	// the sender's last recorded move ended in a write the peer does not take
 	sInWrite bool
+	brokeW   bool // the environment broke the connection under the sender's blocked write (schedule letter B)
 
 	// executor-side bookkeeping
 	base      int // bytes written before Do started
@@ -161,6 +166,7 @@ type runner struct {
 	// input columns and their history
 	colV     proto.ColUInt64
 	colS     proto.ColStr
+	colE     proto.ColEnum // an inferring column with prepared state (raw values rebuilt from Values before every block)
 	ver      int
 	cbS      int
 	cbR      int
@@ -356,11 +362,12 @@ func (r *runner) fillRows() {
 		}
 		r.colV.Append(v)
 		r.colS.Append(fmt.Sprintf("v%d-%d", r.ver, i))
+		r.colE.Append(EnumNames[(r.ver+i)%len(EnumNames)])
 	}
 }
 
 func (r *runner) snapshot() {
-	c := contents{V: append([]uint64(nil), r.colV...)}
+	c := contents{V: append([]uint64(nil), r.colV...), E: append([]string(nil), r.colE.Values...)}
 	for i := 0; i < r.colS.Rows(); i++ {
 		c.S = append(c.S, r.colS.Row(i))
 	}
@@ -384,9 +391,11 @@ func (r *runner) onInput(ctx context.Context) error {
 		}
 		r.colV.Reset()
 		r.colS.Reset()
+		r.colE.Reset()
 	case "reappend":
 		r.colV.Reset()
 		r.colS.Reset()
+		r.colE.Reset()
 		r.appendRows()
 	case "overwrite":
 		if n := r.colV.Rows(); n > 0 {
@@ -397,6 +406,7 @@ func (r *runner) onInput(ctx context.Context) error {
 			r.colS.Reset()
 			for i := 0; i < n; i++ {
 				r.colS.Append(fmt.Sprintf("v%d-%d", r.ver, i))
+				r.colE.Values[i] = EnumNames[(r.ver+i)%len(EnumNames)] // through the exported field, as the README does
 			}
 		}
 	case "cancel":
@@ -425,7 +435,10 @@ func (r *runner) query() ch.Query {
 			r.fillRows() // version 1 = the initial contents
 		}
 		r.snapshot()
-		q.Input = proto.Input{{Name: "v", Data: &r.colV}, {Name: "s", Data: &r.colS}}
+		if err := r.colE.Infer(EnumType); err != nil {
+			panic(err)
+		}
+		q.Input = proto.Input{{Name: "v", Data: &r.colV}, {Name: "s", Data: &r.colS}, {Name: "e", Data: &r.colE}}
 		if cfg.Scn == "stream" {
 			q.OnInput = r.onInput
 		}
@@ -557,7 +570,7 @@ func (r *runner) moveRole(role string) bool {
 		// soon as the watcher has acted, so the sender can already be parked at its next gate: whichever way it
 		// woke, this is its step out of the blocked write
 		if !ok {
-			if !r.conn.Snap().Closed {
+			if !r.conn.Snap().Closed && !r.brokeW {
 				return false // still in the write, and nothing has happened that ends it
 			}
 			r.conn.ResumeWrite()
@@ -753,6 +766,9 @@ func (r *runner) moveCancel(how string) bool {
 	}
 	r.emit(Event{"ev": "Env", "a": how})
 	r.caller.fire(err)
+	if how == "D" && r.sInWrite && r.park["S"] == nil && r.conn.ExpireWriteDeadline() {
+		r.brokeW = true // the sender's blocked write carries the deadline of the context: it ends with it
+	}
 	if !r.spinFor(r.gctxDead) {
 		r.stuck = "group context not cancelled after the caller's context"
 	}
@@ -795,6 +811,15 @@ func (r *runner) step(m byte) bool {
 		return r.moveCancel(string(m))
 	case 'X':
 		return r.moveClose()
+	case 'B':
+		// the connection breaks under the sender's blocked write, having taken a few bytes of the packet (or none)
+		if !r.sInWrite || r.brokeW || r.conn.Snap().Closed || r.park["S"] != nil {
+			return false
+		}
+		r.brokeW = true
+		r.emit(Event{"ev": "Env", "a": "B"})
+		r.conn.BreakBlockedWrite(r.sc.BreakBytes)
+		return true
 	case 'Z':
 		if r.stalledW {
 			return false
@@ -805,6 +830,32 @@ func (r *runner) step(m byte) bool {
 		return true
 	}
 	return false
+}
+
+// stuckEvent says where every goroutine of Do was when nothing could move any more.
+func (r *runner) stuckEvent() Event {
+	ev := Event{"ev": "Stuck", "why": r.stuck}
+	for _, role := range []string{"S", "R", "W"} {
+		at := "?"
+		r.mu.Lock()
+		gone := r.gone[role]
+		r.mu.Unlock()
+		switch {
+		case gone:
+			at = "exit"
+		case role == "S" && r.sInWrite:
+			at = "wblocked"
+		case role == "R" && r.conn.Snap().BlockedRead:
+			at = "read"
+		default:
+			if st, _, ok := r.roleState(role); ok {
+				at = st
+			}
+		}
+		ev[strings.ToLower(role)] = at
+	}
+	ev["callerCancelled"] = r.caller.Err() != nil
+	return ev
 }
 
 // Run executes the scenario and returns its trace (Begin line first).
@@ -868,6 +919,9 @@ func Run(sc Scenario) (events []Event, err error) {
 		if !allOut && r.step('C') {
 			continue
 		}
+		if sc.DrainBreak && r.step('B') {
+			continue // (scenarios about a connection that breaks under a blocked write: it breaks at the latest now)
+		}
 		// everything has left its function: Do is about to reach its last gate
 		if !r.waitFor(func() bool { return r.park["D"] != nil }) {
 			r.stuck = "Do did not return although nothing can move"
@@ -877,7 +931,7 @@ func Run(sc Scenario) (events []Event, err error) {
 		if r.stuck == "" {
 			r.stuck = "drain did not terminate"
 		}
-		r.emit(Event{"ev": "Stuck", "why": r.stuck})
+		r.emit(r.stuckEvent())
 		r.abort()
 		return r.finish(-1), nil
 	}
@@ -996,7 +1050,7 @@ func (r *runner) finish(wbreak int) []Event {
 		}
 	}
 	begin := Event{"ev": "Begin", "id": r.sc.ID, "cfg": cfg, "chains": chains, "sched": r.sc.Sched, "rev": r.sc.Rev,
-		"compression": r.sc.Compression, "breakAt": r.sc.BreakAt, "rowsPer": r.sc.RowsPer}
+		"compression": r.sc.Compression, "breakAt": r.sc.BreakAt, "rowsPer": r.sc.RowsPer, "breakBytes": r.sc.BreakBytes, "drainBreak": r.sc.DrainBreak}
 	return append([]Event{begin}, r.events...)
 }
 
